@@ -208,8 +208,20 @@ func c3Enum(root *zzverif.Rng, maxLayers int, emit func(*c3Case)) {
 				}
 				for _, reps := range [][]c3Reply{{c3K("neterr")}, {c3K("notfound")}, {c3K("status")},
 					{c3K("neterr"), c3K("status"), c3K("notfound")}, {c3Unauth(good)}, {c3Unauth(good), c3Unauth(good)},
-					{c3Unauth(c3F5Headers[0])}, {c3Pass("noloc")}, {c3Pass("badstatus")}, {c3Pass("redirect200")}} {
+					{c3Unauth(c3F5Headers[0])}, {c3Pass("noloc")}, {c3Pass("badstatus")}, {c3Pass("redirect200")},
+					// malformed redirects
+					{c3Pass("noloc307")}, {c3Pass("noloc301")}, {c3Pass("badstatus301")}, {c3Pass("badstatus303")}, {c3Pass("badstatus308")},
+					{c3Pass("badloc")}, {c3Pass("badloc"), c3Pass("badloc"), c3K("neterr")}, {c3Pass("redirectdead")},
+					{c3K("follow")}, {c3K("follow"), c3K("follow"), c3Pass("noloc307")}, c3RepeatReply(c3K("follow"), 11), c3RepeatReply(c3K("follow"), 12),
+					append(c3RepeatReply(c3K("follow"), 23), c3Pass("redirect200"))} {
 					faults = append(faults, fault{stream: "d", reps: reps})
+				}
+				for _, reps := range [][]c3Reply{{c3K("follow")}, c3RepeatReply(c3K("follow"), 9), c3RepeatReply(c3K("follow"), 10),
+					append(c3RepeatReply(c3K("follow"), 3), c3Unauth(good), c3K("follow"))} {
+					faults = append(faults, fault{stream: "h", reps: reps})
+					if li == 0 {
+						faults = append(faults, fault{stream: "m", reps: reps})
+					}
 				}
 				faults = append(faults, fault{stream: "h", reps: []c3Reply{c3Unauth(good)}, tok: []bool{false}},
 					fault{stream: "d", reps: []c3Reply{c3Unauth(good), c3K("status")}, tok: []bool{false}},
@@ -417,8 +429,14 @@ func c3RandReplies(r *zzverif.Rng, stream string, trueLen int) []c3Reply {
 			out = append(out, c3K("notfound"))
 		case 2:
 			out = append(out, c3K("status"))
-		case 3, 4:
+		case 3:
 			out = append(out, c3Unauth(c3GoodChallenge))
+		case 4:
+			if r.Bool() {
+				out = append(out, c3Unauth(c3GoodChallenge))
+			} else {
+				out = append(out, c3RepeatReply(c3K("follow"), zzverif.Pick(r, []int{1, 1, 2, 9, 10, 11, 12}))...)
+			}
 		case 5:
 			if stream == "d" { // a panic on the download goroutine needs a child process: keep those rare
 				if r.Chance(1, 6) {
@@ -438,7 +456,8 @@ func c3RandReplies(r *zzverif.Rng, stream string, trueLen int) []c3Reply {
 			case "h":
 				out = append(out, c3Pass(strconv.Itoa(zzverif.Pick(r, []int{trueLen, trueLen, 0, trueLen + r.Range(1, 9), trueLen / 2, trueLen - 1, r.Intn(70000)}))))
 			case "d":
-				out = append(out, c3Pass(zzverif.Pick(r, []string{"redirect", "redirect", "redirect200", "noloc", "badstatus"})))
+				out = append(out, c3Pass(zzverif.Pick(r, []string{"redirect", "redirect", "redirect200", "noloc", "badstatus",
+					"noloc307", "noloc301", "badstatus301", "badstatus303", "badstatus308", "badloc", "badloc", "redirectdead"})))
 			}
 		}
 	}
@@ -622,7 +641,8 @@ func c3Random(r *zzverif.Rng) *c3Case {
 func c3NeedsChild(a *c3Attempt) bool {
 	for _, l := range a.ls {
 		for _, r := range l.direct {
-			if r.kind == "unauth" && r.arg != c3GoodChallenge {
+			// pinned getValue: a 401 on the direct-URL request whose header ends with key= kills the process
+			if r.kind == "unauth" && !c3ProbeFixed() && strings.HasPrefix(c3HdrDetail(r.arg), "header ends") {
 				return true
 			}
 		}
@@ -708,6 +728,10 @@ func c3RunCase(t *testing.T, out *zzverif.Out, c *c3Case) {
 	}
 	c.fixUniv()
 	line := c.line()
+	if !c3Begin(out, line) {
+		return
+	}
+	defer out.Flush()
 	home := t.TempDir()
 	models := filepath.Join(home, "models")
 	c3Materialise(c, models)
@@ -987,6 +1011,7 @@ func TestVerifC03(t *testing.T) {
 			f := strings.Fields(line)
 			c3Challenge(out, string(zzverif.Unhex(f[2])))
 		}
+		c3Done()
 		return
 	}
 
@@ -1005,9 +1030,13 @@ func TestVerifC03(t *testing.T) {
 		}
 	}
 
+	first := zzverif.EnvInt("VERIF_C03_START", 0) == 0
 	// 1. challenge parsing: byte-exact L1 + totality L2
-	for _, h := range c3ChallengeCases(root.Fork(), zzverif.EnvInt("VERIF_NCH", 2000)) {
-		c3Challenge(out, h)
+	chr := root.Fork()
+	for _, h := range c3ChallengeCases(chr, zzverif.EnvInt("VERIF_NCH", 2000)) {
+		if first {
+			c3Challenge(out, h)
+		}
 	}
 	// 2. part plan of the real Prepare for totals around every boundary
 	pr := root.Fork()
@@ -1018,6 +1047,9 @@ func TestVerifC03(t *testing.T) {
 		totals = append(totals, int64(pr.U64()%(1<<uint(pr.Range(1, 36)))))
 	}
 	for _, total := range totals {
+		if !first {
+			break
+		}
 		out.Case(fmt.Sprintf("plan %d %d %d %d", numDownloadParts, minDownloadPartSize, maxDownloadPartSize, total), c3RealPlan(t, total))
 		out.Count("plan_cases")
 	}
@@ -1038,6 +1070,7 @@ func TestVerifC03(t *testing.T) {
 			c3BigCase(t, out, l)
 		}
 	}
+	c3Done()
 }
 
 func c3Challenge(out *zzverif.Out, h string) {
@@ -1214,4 +1247,32 @@ func c3HonestTail(c *c3Case, a []c3Attempt) []c3Attempt {
 		a = append(a, c3Attempt{})
 	}
 	return a
+}
+
+func c3RepeatReply(r c3Reply, k int) []c3Reply {
+	var out []c3Reply
+	for i := 0; i < k; i++ {
+		out = append(out, r)
+	}
+	return out
+}
+
+// Crash survival: every case announces itself in progress.txt before it runs and everything recorded is
+// flushed after it; when the code under test kills the process (a panic on a goroutine the driver cannot
+// recover), vlib/checks/c03.py reports the announced case as a process death (L2, with the case as replay)
+// and restarts the driver at the next case (VERIF_C03_START).
+var c3CaseIdx int
+
+func c3Begin(out *zzverif.Out, line string) bool {
+	idx := c3CaseIdx
+	c3CaseIdx++
+	if idx < zzverif.EnvInt("VERIF_C03_START", 0) {
+		return false
+	}
+	_ = os.WriteFile(filepath.Join(zzverif.OutDir(), "progress.txt"), []byte(strconv.Itoa(idx)+"\n"+line+"\n"), 0o644)
+	return true
+}
+
+func c3Done() {
+	_ = os.WriteFile(filepath.Join(zzverif.OutDir(), "progress.txt"), []byte("done\n"), 0o644)
 }
